@@ -202,7 +202,8 @@ impl Scenario for GradStreams {
         tier.pick(800, 40_000)
     }
     fn generate(&self, g: &mut Gen, _t: Tier, _i: u64) -> Value {
-        let nc = g.usize(2, 24);
+        // 2..64 chains (a third of the runs above 32)
+        let nc = if g.bool(1, 3) { g.usize(33, 64) } else { g.usize(2, 32) };
         json!({"kind": *g.pick(&["hmc_f32", "hmc_f64", "nuts_f32", "nuts_f64"]), "n_chains": nc, "seeded": g.bool(2, 3), "seed": crate::props::c07::special_seed(g, nc).to_string()})
     }
     fn execute(&self, p: &Value, ws: bool) -> Outcome {
@@ -303,7 +304,7 @@ impl Scenario for GradStreams {
         out
     }
     fn rule(&self) -> &'static str {
-        "one run = an HMC batch or NUTS sampler with 2..24 chains all started at one state, built with defaults or seeded (special seeds); traced momentum rows, acceptance draws, per-chain generator states (NUTS) and trajectories must differ pairwise; distinct = parameter hash"
+        "one run = an HMC batch or NUTS sampler with 2..64 chains all started at one state, built with defaults or seeded (special seeds); traced momentum rows, acceptance draws, per-chain generator states (NUTS) and trajectories must differ pairwise; distinct = parameter hash"
     }
     fn components(&self) -> Value {
         json!({"real": ["HMC::new/set_seed/step", "NUTS::new/set_seed/run"], "stub": []})
